@@ -6,42 +6,3 @@
 
 package memefish
 
-// @ unproved pf memefish.(*Parser).parseAlterSequence -- C05 position clause not yet discharged for this function (needs a contract for a helper that returns positions, or a loop invariant over positions)
-// @ unproved pf memefish.(*Parser).parseAlterTableSet -- C05 position clause not yet discharged for this function (needs a contract for a helper that returns positions, or a loop invariant over positions)
-// @ unproved pf,range memefish.(*Parser).parseArrayLiteralOrSubQuery -- C05 position clause not yet discharged for this function (needs a contract for a helper that returns positions, or a loop invariant over positions)
-// @ unproved pf memefish.(*Parser).parseBracedNewConstructor -- C05 position clause not yet discharged for this function (needs a contract for a helper that returns positions, or a loop invariant over positions)
-// @ unproved pf memefish.(*Parser).parseCallLike -- C05 position clause not yet discharged for this function (needs a contract for a helper that returns positions, or a loop invariant over positions)
-// @ unproved pf memefish.(*Parser).parseCaseExpr -- C05 position clause not yet discharged for this function (needs a contract for a helper that returns positions, or a loop invariant over positions)
-// @ unproved pf,range memefish.(*Parser).parseChangeStreamFor -- C05 position clause not yet discharged for this function (needs a contract for a helper that returns positions, or a loop invariant over positions)
-// @ unproved pf,range memefish.(*Parser).parseColumnAlteration -- C05 position clause not yet discharged for this function (needs a contract for a helper that returns positions, or a loop invariant over positions)
-// @ unproved pf,range memefish.(*Parser).parseColumnDef -- C05 position clause not yet discharged for this function (needs a contract for a helper that returns positions, or a loop invariant over positions)
-// @ unproved pf memefish.(*Parser).parseCreateIndex -- C05 position clause not yet discharged for this function (needs a contract for a helper that returns positions, or a loop invariant over positions)
-// @ unproved pf memefish.(*Parser).parseCreateSearchIndex -- C05 position clause not yet discharged for this function (needs a contract for a helper that returns positions, or a loop invariant over positions)
-// @ unproved pf memefish.(*Parser).parseCreateTable -- C05 position clause not yet discharged for this function (needs a contract for a helper that returns positions, or a loop invariant over positions)
-// @ unproved range memefish.(*Parser).parseIndexKey -- C05 position clause not yet discharged for this function (needs a contract for a helper that returns positions, or a loop invariant over positions)
-// @ unproved pf memefish.(*Parser).parseInsert -- C05 position clause not yet discharged for this function (needs a contract for a helper that returns positions, or a loop invariant over positions)
-// @ unproved pf memefish.(*Parser).parseNewConstructor -- C05 position clause not yet discharged for this function (needs a contract for a helper that returns positions, or a loop invariant over positions)
-// @ unproved range memefish.(*Parser).parseOrderByItem -- C05 position clause not yet discharged for this function (needs a contract for a helper that returns positions, or a loop invariant over positions)
-// @ unproved pf memefish.(*Parser).parsePipeOperator -- C05 position clause not yet discharged for this function (needs a contract for a helper that returns positions, or a loop invariant over positions)
-// @ unproved pf memefish.(*Parser).parsePropertyGraphLabelAndPropertiesList -- C05 position clause not yet discharged for this function (needs a contract for a helper that returns positions, or a loop invariant over positions)
-// @ unproved pf memefish.(*Parser).parseQuery -- C05 position clause not yet discharged for this function (needs a contract for a helper that returns positions, or a loop invariant over positions)
-// @ unproved range memefish.(*Parser).parseQueryExpr -- C05 position clause not yet discharged for this function (needs a contract for a helper that returns positions, or a loop invariant over positions)
-// @ unproved range memefish.(*Parser).parseScalarSchemaType -- C05 position clause not yet discharged for this function (needs a contract for a helper that returns positions, or a loop invariant over positions)
-// @ unproved pf memefish.(*Parser).parseSelect -- C05 position clause not yet discharged for this function (needs a contract for a helper that returns positions, or a loop invariant over positions)
-// @ unproved pf,range memefish.(*Parser).parseSimpleArrayLiteral -- C05 position clause not yet discharged for this function (needs a contract for a helper that returns positions, or a loop invariant over positions)
-// @ unproved range memefish.(*Parser).parseSimpleType -- C05 position clause not yet discharged for this function (needs a contract for a helper that returns positions, or a loop invariant over positions)
-// @ unproved pf,range memefish.(*Parser).parseStructType -- C05 position clause not yet discharged for this function (needs a contract for a helper that returns positions, or a loop invariant over positions)
-// @ unproved pf,range memefish.(*Parser).parseTVFCallExpr -- C05 position clause not yet discharged for this function (needs a contract for a helper that returns positions, or a loop invariant over positions)
-// @ unproved pf,range memefish.(*Parser).parseTablePrivilege -- C05 position clause not yet discharged for this function (needs a contract for a helper that returns positions, or a loop invariant over positions)
-// @ unproved pf,range memefish.parseStatements -- C05 position clause not yet discharged for this function (needs a contract for a helper that returns positions, or a loop invariant over positions)
-// @ unproved pfl memefish.(*Parser).parseSelector -- C05: position soundness of the Path extended in place (e.Idents = append(...)) is not discharged within the time limit
-// @ unproved range memefish.(*Parser).parseAlterSequence -- C05 position clause not yet discharged for this function
-// @ unproved range memefish.(*Parser).parseAlterTableSet -- C05 position clause not yet discharged for this function
-// @ unproved range memefish.(*Parser).parseCallLike -- C05 position clause not yet discharged for this function
-// @ unproved range memefish.(*Parser).parsePipeOperator -- C05 position clause not yet discharged for this function
-// @ unproved range memefish.(*Parser).parsePropertyGraphLabelAndPropertiesList -- C05 position clause not yet discharged for this function
-// @ unproved range memefish.(*Parser).parseQuery -- C05 position clause not yet discharged for this function
-// @ unproved range memefish.(*Parser).parseSelect -- C05 position clause not yet discharged for this function
-// @ unproved pf memefish.(*Parser).parseTableExprSuffix -- C05 position clause not yet discharged for this function
-// @ unproved range memefish.(*Parser).parseTableExprSuffix -- C05 position clause not yet discharged for this function
-// @ unproved pfq memefish.(*Parser).parseQueryExpr -- C05: position soundness of the compound query extended in place (c.Queries = append(...)) is not discharged within the time limit
